@@ -107,6 +107,10 @@ type Case struct {
 	Method   string `json:"method"`   //
 	Template string `json:"template"` // path template of the operation
 	Consumes string `json:"consumes"` // media type the operation consumes
+	// ConsumesList, when given, is the consumes LIST of the operation, in the description and (verbatim,
+	// empty entries included) in the client operation; Consumes is then its first non-empty entry, the
+	// one the client is documented to use.
+	ConsumesList []string `json:"consumeslist,omitempty"`
 	Produces string `json:"produces"` // media type the operation produces
 	Params   []P    `json:"params"`
 	Auth     bool   `json:"auth,omitempty"` // a client auth writer is installed; it sets a credential header
@@ -313,6 +317,16 @@ func mergeOps(cases []*Case) ([]apib.Op, error) {
 			byKey[key] = d
 			decls = append(decls, d)
 		}
+		if len(c.ConsumesList) > 0 {
+			if first := firstNonEmpty(c.ConsumesList); first != c.Consumes {
+				return nil, fmt.Errorf("consumes %q is not the first non-empty entry of %q", c.Consumes, c.ConsumesList)
+			}
+			for _, m := range c.ConsumesList {
+				if m != "" {
+					d.consumes = addTo(d.consumes, mediaType(m))
+				}
+			}
+		}
 		d.consumes = addTo(d.consumes, mediaType(c.Consumes))
 		d.produces = addTo(d.produces, mediaType(c.Produces))
 		ps := make([]map[string]any, 0, len(c.Params)+1)
@@ -424,15 +438,17 @@ func buildServer(cases []*Case) (*server, error) {
 	// register what a generated server registers: the codecs of the media types the description names
 	// (JSON is there by default and stays the default for error bodies)
 	for _, c := range cases {
-		switch bareType(c.Consumes) {
-		case runtime.TextMime:
-			api.RegisterConsumer(runtime.TextMime, runtime.TextConsumer())
-		case runtime.DefaultMime:
-			api.RegisterConsumer(runtime.DefaultMime, runtime.ByteStreamConsumer())
-		case runtime.URLencodedFormMime:
-			api.RegisterConsumer(runtime.URLencodedFormMime, runtime.DiscardConsumer)
-		case runtime.MultipartFormMime:
-			api.RegisterConsumer(runtime.MultipartFormMime, runtime.DiscardConsumer)
+		for _, m := range append([]string{c.Consumes}, c.ConsumesList...) {
+			switch bareType(m) {
+			case runtime.TextMime:
+				api.RegisterConsumer(runtime.TextMime, runtime.TextConsumer())
+			case runtime.DefaultMime:
+				api.RegisterConsumer(runtime.DefaultMime, runtime.ByteStreamConsumer())
+			case runtime.URLencodedFormMime:
+				api.RegisterConsumer(runtime.URLencodedFormMime, runtime.DiscardConsumer)
+			case runtime.MultipartFormMime:
+				api.RegisterConsumer(runtime.MultipartFormMime, runtime.DiscardConsumer)
+			}
 		}
 		switch bareType(c.Produces) {
 		case runtime.TextMime:
@@ -700,6 +716,29 @@ type result struct {
 	panicked  string
 }
 
+func firstNonEmpty(l []string) string {
+	for _, m := range l {
+		if m != "" {
+			return m
+		}
+	}
+	return ""
+}
+
+// clientConsumes is the ConsumesMediaTypes of the client operation: the list of the description.
+func clientConsumes(c *Case) []string {
+	if len(c.ConsumesList) == 0 {
+		return []string{mediaType(c.Consumes)}
+	}
+	out := make([]string, len(c.ConsumesList))
+	for i, m := range c.ConsumesList {
+		if m != "" {
+			out[i] = mediaType(m)
+		}
+	}
+	return out
+}
+
 // clientSide is one client.Runtime; its transport hands every request to the
 // wire of the round trip in progress.
 type clientSide struct {
@@ -854,7 +893,7 @@ func execute(s *server, cl *clientSide, c *Case) (res result, herr error) {
 		ID:                 "op",
 		Method:             c.Method,
 		PathPattern:        c.Template,
-		ConsumesMediaTypes: []string{mediaType(c.Consumes)},
+		ConsumesMediaTypes: clientConsumes(c),
 		ProducesMediaTypes: []string{mediaType(c.Produces)},
 		Schemes:            []string{"http"},
 		Params:             writer,
